@@ -26,6 +26,11 @@ claimed = {
    technique='explicit-state breadth-first search over operation histories on the real store views against a single ordered-map model, states merged on the model state',
    text='All histories up to depth 4 (thorough 6) of mutating operations (Set/Delete/DeletePrefix/Clear/Close; batch focus: Batched/b.Set/b.Delete/Commit/Cancel/Flush) through 3 views of one mapdb, for 6 view trees (nested, overlapping, empty and 0xff-terminated realms, WithRealm vs WithExtendedRealm) x up to 5 wrapper stacks. After every step every Get/Has/Iterate/IterateKeys (4 prefixes x 2 directions x stop/no stop) of every view, Realm() and the whole contents seen through the unwrapped root are compared with one map keyed by realm||key; error identities (ErrKeyNotFound/ErrStoreClosed) included; all caller buffers and returned slices are overwritten after each call.',
    note='Trusted: the model (sorted Go map). Mutation of a value slice between batch Set and Commit is outside the statement and not exercised.', ref='2 C04'),
+
+ 'C05': dict(cat='model_checking', engine='S',
+   technique='stateless model checking of the real code under a controlled scheduler (preemption-bounded DFS, then all interleavings with a happens-before state cache); each execution history checked for linearizability with porcupine',
+   text='11 operation mixes (Set/Get/Delete, Set/DeletePrefix/Has, Clear, Iterate/IterateKeys in both directions, batch Commit vs Iterate/Get/DeletePrefix/batch) by 2-4 threads through two overlapping views (realm empty and 00, colliding stored keys) over mapdb and flushkv(mapdb). Every interleaving with <= 2 (thorough 3) preemptions and, where it completes, every interleaving at all (state cache) is executed on the real code; the recorded call/return history of every execution plus a sequential read of the final contents is checked by porcupine against the C04 ordered-map model (batch = one atomic write per key inside the Commit interval; Iterate = atomic snapshot). Deadlocks and panics are violations.',
+   note='Trusted: shim fidelity, sequential consistency, porcupine. Data-race freedom is not decided by this check (cooperative scheduling hides races); 5-16 goroutines are not explored.', ref='2 C05'),
 }
 na_reason = 'check not built yet in this round (engine exists; see DESIGN.md section 9 for the order of work)'
 checks = []
